@@ -125,7 +125,7 @@ def coq_build(timeout=1500, log=None):
                             "Makefile"], cwd=COQ, check=True,
                            capture_output=True)
         try:
-            r = subprocess.run(["make", "-j%d" % NCPU], cwd=COQ,
+            r = subprocess.run(["make", "-k", "-j%d" % NCPU], cwd=COQ,
                                capture_output=True, text=True,
                                timeout=timeout)
         except subprocess.TimeoutExpired as e:
